@@ -283,10 +283,23 @@ func (vUpstreamErr) Hint() string     { return "upstream hint" }
 // vErrorThroughSession serves one client cycle whose callback fails with err
 // and returns everything the server wrote.
 func vErrorThroughSession(via int, err error) []byte {
-	stmt := func(ctx context.Context, dw DataWriter, params []Parameter) error { return err }
+	// the statement function may have tried to write a row that was rejected (a
+	// value no codec accepts) before it gives up with the error: what it
+	// abandoned takes nothing away from the ErrorResponse
+	afterRow := via != 3 && nondetBool()
+	stmt := func(ctx context.Context, dw DataWriter, params []Parameter) error {
+		if afterRow {
+			dw.Row([]any{"v", vUnencodable{1}}) //nolint
+			vReach("error-returned-after-a-rejected-row")
+		}
+		return err
+	}
 	parse := func(ctx context.Context, query string) (PreparedStatements, error) {
 		if via == 3 {
 			return nil, err
+		}
+		if afterRow {
+			return Prepared(NewStatement(stmt, WithColumns(vTextColumns(2)))), nil
 		}
 		return Prepared(NewStatement(stmt)), nil
 	}
